@@ -1,0 +1,6 @@
+//go:build !verif
+
+package goa
+
+// verifPatternHook is a no-op in regular builds (see validation_verif.go).
+func verifPatternHook(string, string) {}
